@@ -241,6 +241,37 @@ def C12(tier, seed):
                "infer_dtype_from_array -> declared dtype of the symbolic column"])
 
 
+def C14(tier, seed):
+    from harness import roundtrip
+    from .core import Run
+
+    n = 3 if tier == "quick" else 4
+    variants = [("", {}), (":per_axis_pos", dict(multi_pos=True)), (":3D", dict(shape=(3, 1, 1, 1))),
+                (":scale_given", dict(scale="given"))]
+    runs = []
+    for route, h in (("geff", roundtrip.geff_harness), ("csv", roundtrip.csv_harness)):
+        for name, extra in variants:
+            if route == "csv" and name == ":scale_given":
+                continue
+            cfg = dict(N=n, op=route, select=False)
+            cfg.update(extra)
+            runs.append(Run(f"roundtrip:{route}{name}:N={n}", h, cfg, roundtrip.replay, ("roundtrip",),
+                            f"every valid solution on <= {n} node slots (forest shape, times, track and lineage ids "
+                            f"symbolic; ids 1..{n + 1}), coordinates arbitrary reals; full export, then import with the "
+                            f"key mapping that corresponds to what the exporter wrote"))
+    return run_property("C14", tier, runs, explanation=R.EXPL, seed=seed, assumptions=EXPORT_ASSUME + [
+        "IDEAL STORE between the two halves: geff.write followed by read_to_memory returns the node ids, edges and one "
+        "value array per attribute of the written graph (absent attribute = missing); DataFrame.to_csv followed by "
+        "read_csv returns the same table with empty fields as missing values.  What zarr / geff / pandas really do "
+        "with the values (dtypes, text formatting) is outside the claim; counterexamples are replayed through the "
+        "real files",
+        "claimed: nodes, edges, times, positions, track ids after GEFF and CSV round trips of tracks without "
+        "segmentation; NOT claimed: the internal save format (its content is json / np.save conversion), segmentation "
+        "round trips (position / mask consistency is needed for the importer's segmentation check), display-name "
+        "CSV headers, subset exports, loaded computed features"],
+        stubs=EXPORT_STUBS + ["geff read_to_memory / GeffMetadata.read -> ideal store", "pandas DataFrame -> _Frame model"])
+
+
 def C13(tier, seed):
     from harness import relabel
     from .core import Run
@@ -558,6 +589,10 @@ def replay_file(prop, path):
         from harness import candgraph
 
         fn = candgraph.points_replay if run.startswith("points") else candgraph.seg_replay
+    elif run.startswith("roundtrip:"):
+        from harness import roundtrip
+
+        fn = roundtrip.replay
     elif run.startswith("import:"):
         from harness import importer
 
